@@ -28,17 +28,18 @@ type c05Agent struct {
 }
 
 type c05Scenario struct {
-	Index   int        `json:"index"`
-	Flavour string     `json:"flavour"`
-	Agents  []c05Agent `json:"agents"`
-	Root    *roleSpec  `json:"workflow"`
-	Notes   []string   `json:"notes,omitempty"`
+	PortBudget map[string]string `json:"port_budget,omitempty"` // task role name -> exact | fewer | plenty (override-bind flavour)
+	Index      int               `json:"index"`
+	Flavour    string            `json:"flavour"`
+	Agents     []c05Agent        `json:"agents"`
+	Root       *roleSpec         `json:"workflow"`
+	Notes      []string          `json:"notes,omitempty"`
 }
 
 var c05Flavours = []string{
 	"plain", "tight-cpu", "static-vs-dynamic", "host-absent", "multi-valued", "tight-mem", "same-static-twice",
 	"override", "exact-cpu", "static-vs-control", "port-starved", "many-per-host", "nearest-unsat", "no-high-ports",
-	"executors", "unsat-constraint", "plain", "exact-mem", "override", "host-absent",
+	"executors", "unsat-constraint", "override-bind", "exact-mem", "override", "host-absent",
 }
 
 var c05AttrPool = map[string][]string{
@@ -81,6 +82,9 @@ func c05Gen(c *vlib.Ctx, idx int) c05Scenario {
 	fl := c05Flavours[idx%len(c05Flavours)]
 	sc := c05Scenario{Index: idx, Flavour: fl}
 	wf := fmt.Sprintf("c05w%d", idx)
+	if fl == "override-bind" {
+		return c05GenOverrideBind(sc, r, wf)
+	}
 	nAgents := 1 + r.Intn(3)
 	if fl == "many-per-host" || fl == "same-static-twice" {
 		nAgents = 1 + r.Intn(2)
@@ -734,8 +738,26 @@ func c05Run(c *vlib.Ctx, idx int) {
 				}
 			}
 			c.Count("inbound_tcp_channels", int64(nTCP))
+			if b := sc.PortBudget[tr.Name]; b != "" {
+				c.Count("override_bind_tasks_launched", 1)
+				c.Count("override_bind_launched_on_"+b+"_ports", 1)
+			}
+			// what the task is told at CONFIGURE: every inbound channel it declares has an address (cheap echo of C13)
+			if controllable {
+				for _, cmd := range t.Commands {
+					if cmd.Event != "CONFIGURE" {
+						continue
+					}
+					for _, ch := range mergedInbound(tr) {
+						c.Count("configured_inbound_channels_checked", 1)
+						if _, ok := cmd.Arguments["chans."+ch.Name+".0.address"]; !ok {
+							viol("CONFIGURE", "inbound-channel-without-address", fmt.Sprintf("task %s was configured without chans.%s.0.address although it declares the inbound channel %s (ports of its ACCEPT: %v)", t.RolePath, ch.Name, ch.Name, t.Ports))
+						}
+					}
+				}
+			}
 			if other < nTCP {
-				viol("PORTS", "not-distinct/within-task/dynamic-port-shared", fmt.Sprintf("task %s binds %d tcp channel(s) but only %d requested port(s) are neither static (%q) nor its control port %d: a dynamic port coincides with another port of the task (ports %v)", t.RolePath, nTCP, other, tr.Task.Ports, t.ControlPort, t.Ports))
+				viol("PORTS", "not-distinct/within-task/dynamic-port-shared", fmt.Sprintf("task %s binds %d tcp channel(s) but only %d requested port(s) are neither static (%q) nor its control port %d: a tcp channel got no port of its own (it shares one with another port of the task, or was given none) (ports %v)", t.RolePath, nTCP, other, tr.Task.Ports, t.ControlPort, t.Ports))
 			}
 			extra := other - nTCP
 			if !controllable && extra == 1 {
@@ -806,6 +828,20 @@ func c05Run(c *vlib.Ctx, idx int) {
 	}
 	if flushSeq < 0 && len(unanswered) == 0 && !crashed {
 		c.Inconclusive(fmt.Sprintf("scenario %d: the flush deployment request never reached the master; the last offers round cannot be judged for declines (steps: %s)", idx, strings.Join(obs.Steps, " | ")))
+	}
+	for name, b := range sc.PortBudget {
+		if b != "fewer" {
+			continue
+		}
+		launched := false
+		for _, t := range tasks {
+			if strings.HasSuffix(t.RolePath, "."+name) {
+				launched = true
+			}
+		}
+		if !launched {
+			c.Count("override_bind_not_launched_for_lack_of_ports", 1)
+		}
 	}
 	if sc.Flavour == "host-absent" && !crashed {
 		c.Count("rounds_abandoned_for_absent_host", 1)
@@ -886,4 +922,72 @@ func unansweredAtRevive(m *simmesos.Master) []unansweredOffer {
 		}
 	}
 	return out
+}
+
+// c05GenOverrideBind: three agents, one pinned fairmq/direct task each. Every task template declares 3-4
+// inbound tcp channels; the task role, or an aggregator around it, declares a channel with the NAME of the
+// first or of a middle one of them again (other type / transport / global alias, once ipc addressing), so
+// that further template channels follow the overridden one. The agent offers exactly as many ports as the
+// task needs (one per tcp channel from 9000 on, and 30000 for the control port), one fewer, or plenty.
+func c05GenOverrideBind(sc c05Scenario, r *rand.Rand, wf string) c05Scenario {
+	cycle := sc.Index / len(c05Flavours)
+	budgets := []string{"exact", "plenty", "exact"}
+	if cycle%2 == 1 {
+		budgets = []string{"exact", "fewer", "plenty"}
+	}
+	root := &roleSpec{Name: wf, Defaults: []kv{{"hosts", `["host1"]`}, {"deploy_timeout", "6s"}}}
+	sc.Root = root
+	sc.PortBudget = map[string]string{}
+	types := []string{"push", "pull", "pub", "sub"}
+	for j, budget := range budgets {
+		host := fmt.Sprintf("host%d", j+1)
+		n := 3 + r.Intn(2)
+		tpl := &tplSpec{Name: fmt.Sprintf("%s-ob%d", wf, j), Mode: pick(r, "fairmq", "direct"), CPU: 0.1, Mem: 32}
+		for b := 0; b < n; b++ {
+			tpl.Bind = append(tpl.Bind, chanSpec{Name: fmt.Sprintf("in%d", b), Type: types[r.Intn(4)], Transport: "zeromq", Addressing: "tcp"})
+		}
+		over := 0 // the first one
+		if (j+cycle)%2 == 1 {
+			over = 1 + r.Intn(n-2) // a middle one
+		}
+		ovr := chanSpec{Name: tpl.Bind[over].Name, Type: types[r.Intn(4)], Transport: "shmem", Addressing: "tcp"}
+		switch r.Intn(3) {
+		case 0:
+			ovr.Global = fmt.Sprintf("ob-alias-%d", j)
+		case 1:
+			if j == 2 {
+				ovr.Addressing = "ipc"
+			}
+		}
+		role := &roleSpec{Name: fmt.Sprintf("ob%d", j), Task: tpl, Critical: true, Constraints: []kv{{"machine_id", host}}}
+		where := "task role"
+		if j%2 == 1 {
+			g := &roleSpec{Name: fmt.Sprintf("g%d", j+1), Children: []*roleSpec{role}, Bind: []chanSpec{ovr}}
+			root.Children = append(root.Children, g)
+			where = "aggregator " + g.Name
+		} else {
+			role.Bind = []chanSpec{ovr}
+			root.Children = append(root.Children, role)
+		}
+		root.link(nil)
+		nTCP := 0
+		for _, ch := range mergedInbound(role) {
+			if ch.Addressing != "ipc" {
+				nTCP++
+			}
+		}
+		a := c05Agent{Host: host, Attrs: map[string]string{"machine_id": host, "site": "p2"}, CPU: 16, Mem: 16384,
+			Ports: [][2]uint64{{9000, 9100}, {30000, 30100}}}
+		switch budget {
+		case "exact":
+			a.Ports = [][2]uint64{{9000, 9000 + uint64(nTCP) - 1}, {30000, 30000}}
+		case "fewer":
+			a.Ports = [][2]uint64{{9000, 9000 + uint64(nTCP) - 2}, {30000, 30000}}
+		}
+		sc.Agents = append(sc.Agents, a)
+		sc.PortBudget[role.Name] = budget
+		sc.Notes = append(sc.Notes, fmt.Sprintf("%s: template binds %d tcp channels, %s declares %s again (%d tcp channels in effect); agent %s offers %s ports: %v", role.Name, n, where, ovr.Name, nTCP, host, budget, a.Ports))
+	}
+	root.link(nil)
+	return sc
 }
